@@ -408,10 +408,17 @@ fn mutate(bytes: &mut Vec<u8>, rng: &mut StdRng) -> Vec<String> {
 /// signature, a valid metadata copy, or a valid metadata copy and an empty journal.
 fn random_file(flavour: u64, blocks: u64, rng: &mut StdRng) -> (Vec<u8>, u32, Vec<String>) {
     let mut bytes = vec![0u8; blocks as usize * B];
+    if flavour % 6 >= 4 {
+        // a large foreign file that is all zero except near its end (sizes that are not a whole number
+        // of MiB: whatever scans the file for "never written" must read its tail too)
+        let from = if flavour % 6 == 4 { bytes.len() - B } else { bytes.len() - 16 * B + 7 };
+        rng.fill_bytes(&mut bytes[from..]);
+        return (bytes, 3, vec![format!("zero but for the last {} bytes of {} blocks", blocks as usize * B - from, blocks)]);
+    }
     rng.fill_bytes(&mut bytes);
     let len = bytes.len() as u64;
     let mut fmt = 3;
-    let note = match flavour % 4 {
+    let note = match flavour % 6 {
         0 => "random bytes",
         1 => {
             put(&mut bytes, 0, b"FEOX_SIG");
@@ -447,7 +454,9 @@ fn build_item(item: &Value, t: &Table) -> Built {
     match item["kind"].as_str().unwrap_or("model") {
         "random" => {
             let mut rng = item_rng(item, 3);
-            let (bytes, fmt, notes) = random_file(item["flavour"].as_u64().unwrap_or(0), item["blocks"].as_u64().unwrap_or(20).clamp(17, 64), &mut rng);
+            let flavour = item["flavour"].as_u64().unwrap_or(0);
+            let blocks = item["blocks"].as_u64().unwrap_or(20);
+            let (bytes, fmt, notes) = random_file(flavour, if flavour % 6 >= 4 { blocks.clamp(17, 1100) } else { blocks.clamp(17, 64) }, &mut rng);
             Built { bytes, fmt, ttl: item["seed"].as_u64().unwrap_or(0) % 2 == 0, notes }
         }
         kind => {
@@ -895,7 +904,7 @@ pub fn main(args: &[String]) -> i32 {
     }
     for i in 0..o.num("random", 0usize) {
         let id = items.len() as u64;
-        items.push(json!({"id": id, "kind": "random", "seed": rng.random::<u32>(), "flavour": i % 4, "blocks": 17 + rng.random_range(0..8)}));
+        items.push(json!({"id": id, "kind": "random", "seed": rng.random::<u32>(), "flavour": i % 6, "blocks": if i % 6 >= 4 { [272u64, 769, 300, 513, 1025][(i / 6) % 5] } else { 17 + rng.random_range(0..8) }}));
     }
     let dir = o.req("dir").to_string();
     std::fs::create_dir_all(&dir).ok();
